@@ -172,6 +172,33 @@ def rfkicks_rows(exe, h5, rng):
                 fails.append("dynamic %s RF run lost the charge: populations %r" % ("linear" if lin else "sinusoidal", pop[-3:]))
         finally:
             shutil.rmtree(d, ignore_errors=True)
+    # an INTERRUPTED run (hook H1: SIGINT at a chosen interrupt point): one row per EXECUTED step, however many were planned
+    for _ in range(2):
+        d = prog.scratch()
+        try:
+            cfg = dict(n=16, N=20, T=0.5, outstep=rng.choice([0, 1, 3]), h5save=0, cur=[0.001], imp="none", renorm=0,
+                       shx=0, shy=0, pad=2, it=4, dt=4)
+            lin = rng.random() < 0.5
+            extra = ["--RFPhaseModAmplitude", "0.5", "--RFPhaseModFrequency", "12345", "--LinearRF", "1" if lin else "0"]
+            r0 = prog.run_inovesa(exe, P.args_of(cfg, extra=extra), d, trace=True)
+            M = len(r0.trace)
+            if r0.rc != 0 or M < 20:
+                fails.append("dynamic RF run (reference for the interrupted one) failed: %s" % (r0.err or r0.out)[-200:])
+                continue
+            p = rng.randint(M // 4, (3 * M) // 4)
+            os.remove(os.path.join(d, "a.h5"))
+            r = prog.run_inovesa(exe, P.args_of(cfg, extra=extra), d, sigint_at=p, trace=True)
+            if r.rc != 0 or not os.path.exists(os.path.join(d, "a.h5")):
+                fails.append("interrupted dynamic RF run failed (point %d): status %d" % (p, r.rc))
+                continue
+            D = prog.dump(h5, os.path.join(d, "a.h5"))
+            rows = D["dsets"]["/RFKicks/data"][2][0]
+            done = sum(1 for t in r.trace if t == "loop:rf-applied")
+            if rows != done:
+                fails.append("/RFKicks/data has %d rows after a run interrupted at point %d (%s) that applied %d RF kicks "
+                             "(outstep %d, %s RF)" % (rows, p, r0.trace[p], done, cfg["outstep"], "linear" if lin else "sinusoidal"))
+        finally:
+            shutil.rmtree(d, ignore_errors=True)
     return fails
 
 
